@@ -600,6 +600,7 @@ class MergeEscapeParts(FnCase):
             pass
         M, A = self.state(q, m_cid, a_cid)
         PS, SEP = self.PS, self.SEP
+        is_open = False
         if isinstance(A, tuple):            # the open group is kept as its joined text: flat(group) is separator + that text
             text = z3.Concat(flat(SEP, M), SEP, A[1]); A = None; is_open = True
         else:
@@ -608,6 +609,25 @@ class MergeEscapeParts(FnCase):
                  ('text_so_far', text == flat(SEP, SubSeq(PS, 0, j)))]
         if A is not None:
             goals.append(('open_group_not_empty', Length(A) >= 1))
+        # ---- where the group boundaries fall (step clauses, proved for every body path from the arbitrary head state of each mode; from the
+        # dumper's format: a quoted field starts with a quote, and its only unescaped quote after that is its last character)
+        post_open = (A is not None) or is_open
+        if z3.is_const(j) and j.decl().kind() == z3.Z3_OP_UNINTERPRETED:
+            self.head = (M, post_open, j)                      # loop-head state of the mode being preserved
+        elif z3.is_add(j) and getattr(self, 'head', None) is not None and j.arg(0).eq(self.head[2]):
+            M0, head_open, j0 = self.head
+            t = PS[j0]; n = Length(t); ES = self.ES
+            startsq = And(n > 0, SubString(t, 0, 1) == StringVal('"'))
+            cq = And(n > 0, SubString(t, n - 1, 1) == StringVal('"'), esc_run(t, ES, n - 2) % 2 == 0)
+            closes = Or(t == StringVal('"'), cq)
+            if not head_open and post_open:
+                goals.append(('group_opens_only_on_an_unfinished_quoted_part', And(startsq, M == M0, Or(t == StringVal('"'), Not(cq)))))
+            elif not head_open:
+                goals.append(('part_outside_a_group_is_a_field_of_its_own', M == z3.Concat(M0, z3.Unit(t))))
+            elif post_open:
+                goals.append(('group_stays_open_without_a_closing_quote', And(Not(closes), M == M0)))
+            else:
+                goals.append(('group_closes_on_a_closing_quote', And(closes, Length(M) == Length(M0) + 1)))
         out = []
         for nm, g in goals:
             out.append((nm, g, {'prove': (lambda L_, q_, jn, g=g: (g, {'defs': flat_instances(SEP, [g] + list(q_.pc), PS)}))}))
@@ -683,6 +703,15 @@ class MergeEscapeParts(FnCase):
         import importlib, itertools
         f = importlib.import_module('rxsci.container.csv').merge_escape_parts
         def flat_py(ps, sep): return ''.join(sep + x for x in ps)
+        def wellformed(fld, esc):
+            if not fld.startswith('"'): return '"' not in fld
+            if len(fld) < 2 or fld[-1] != '"': return False
+            i = 1
+            while i < len(fld) - 1:
+                if fld[i] == esc: i += 2
+                elif fld[i] == '"': return False
+                else: i += 1
+            return i == len(fld) - 1
         def show(parts, sep, esc):
             _exp, closed = self.spec_py(list(parts), sep, esc)
             before = list(parts); arg = list(parts)
@@ -695,6 +724,8 @@ class MergeEscapeParts(FnCase):
             elif flat_py(got, sep) != flat_py(before, sep):
                 if closed: why = 'every quote is closed, but the re-joined result is not the text of the parts'
                 elif not flat_py(before, sep).startswith(flat_py(got, sep)): why = 'the result is not a prefix of the text of the parts'
+            elif closed and all(wellformed(x, esc) for x in _exp) and got != _exp:
+                why = 'a line in the format the dumper writes (unquoted fields without quotes, quoted fields with every inner quote / escape escaped) is not split into its fields'
             if why:
                 return {'status': 'reproduced', 'call': f'merge_escape_parts({before!r}, {sep!r}, {esc!r})', 'got': got, 'why': why,
                         'argument_after_call': arg, 'text_of_parts': sep.join(before), 'text_of_result': sep.join(got) if isinstance(got, list) else None}
